@@ -7,9 +7,14 @@ SumTo(f, n) == IF n = 0 THEN 0 ELSE f[n] + SumTo(f, n - 1)
 Bound == ntok <= MaxTok /\ SumTo(sent, nin) <= MaxSent
 View  == full                      \* obs / nobs are observations, not state
 CTexts == {}
+OpsT3 == {"unreg"}
+OpsQ == {"refuse", "unreg", "relist"}
+CHRs2 == {<<1, 0>>, <<-1, 0>>}
+OpsAll == {"refuse", "idle", "unreg", "table", "relist"}
 CHRsQ  == {<<0, 0>>, <<1, 0>>, <<-1, 0>>}
 CRVs   == {1, 0, -1}
 CWhats == {-1, 4}
+CWhats1 == {-1}
 CWhatsT == {-1, 1, 4}
 CHRsT  == {<<0, 0>>, <<1, 0>>, <<3, 1>>, <<4, 0>>, <<-1, 0>>}
 =============================================================================
